@@ -18,7 +18,7 @@ SIM_UNIT = "horizon steps solved"
 BUDGET = {"quick": {"runs": 8000, "wall": 80}, "thorough": {"runs": 60000, "wall": 1500}}
 SHRINK_LISTS = ("ops",)
 PROBES = {"C14": ["second-solve", "solve-at-stale-clock", "solve-after-jump", "solve-after-syscall", "ltv", "lti",
-                  "ns=1", "batch>1", "T=1", "u:none", "u:zeros", "u:random", "u:prev", "u:prev-shifted-in-place", "x_init:non-contiguous", "x_init:expanded", "two-lqr-share-system",
+                  "ns=1", "batch>1", "T=1", "u:none", "u:zeros", "u:random", "u:prev", "u:prev-shifted-in-place", "x_init:non-contiguous", "x_init:expanded", "x_init:zero", "two-lqr-share-system",
                   "mpc-linear", "mpc-nonlinear", "nls-time-dependent", "mpc-nonmonotone", "unstable-A", "cond>1e4", "system:deepcopied"]}
 import os
 TS = float(os.environ.get("PPSIM_TOLSCALE", "1"))
@@ -224,6 +224,9 @@ def execute(plan, prop, out, tr):
         j = o.get("lqr", 0) if (len(lqrs) > 1 and op != "mpc") else 0
         Q, p = costs[j]
         x0 = rng.randn(s, ("x0", i), (B, ns), dt)
+        if rng.H(s, "x0zero", i) % 11 == 0:
+            x0 = x0 * 0.0                        # start exactly at the origin
+            out.probe("x_init:zero")
         if i % 3 == 1:
             xb_ = torch.zeros(B, 2 * ns, dtype=dt); xb_[:, ::2] = x0; x0 = xb_[:, ::2]     # non-contiguous initial state
             out.probe("x_init:non-contiguous")
